@@ -575,9 +575,13 @@ Definition exec1 (s : state) (t : tid) (held : list aid) (i : instr) : state * l
                              end in
         let x3 := set_hooks x2 hooks' in
         if ok then
+          (* state := running; mailbox.Resume(); events; then OnLaunch is handled inline (HandleEnvelop called directly) *)
           let x4 := set_state (set_restarting x3 None) Running in
-          (set_actor s self x4,
-           [IEnq true (RObj self) (RObj self) MLaunch; IEnqDone; IResume1; IPub evRestarted (actor_key x); IPub evResumed (actor_key x)])
+          let launch := {| e_sys := true; e_sender := rref_parent x; e_msg := MLaunch |} in
+          let x5 := set_mb x4 (a_sq x4) (a_uq x4) (a_paused x4) (CBusy 0%N) (Some launch) in
+          (set_actor s self x5,
+           [IResume1; IPub evRestarted (actor_key x); IPub evResumed (actor_key x);
+            IBeh MLaunch (sp_launch (a_spec x)) RecFail; IPub evLaunched (actor_key x)])
         else
           (set_actor s self (set_zombie x3 true), [IResume1])
     | ISupApply c d targets =>
@@ -591,9 +595,8 @@ Definition exec1 (s : state) (t : tid) (held : list aid) (i : instr) : state * l
             (s, flat_map (fun r => [IEnq (negb (is_graceful d)) r (RObj self) (MKill (RObj self) (is_graceful d)); IEnqDone]) targets
                 ++ if is_graceful d then resume_all else [])
         | DResume => (s, resume_all)
-        | DEscalate =>
+        | DEscalate | DInvalid =>     (* out-of-range decisions are handled as Escalate *)
             (s, [IPauseSt; IEnq true (rref_parent x) (RObj self) (MSup (SupCtx (RObj self) [] (Some c1))); IEnqDone])
-        | DInvalid => (s, [])
         end
     | ISupPause c d [] done => (s, [ISupApply c d done])
     | IObs o => (add_obs s o, [])
@@ -639,7 +642,8 @@ Definition FUEL : nat := 4000.
 Definition strategy_of (s : state) (x : actor) : N := sp_strategy (a_spec x).
 
 Definition dispatch (s : state) (a : aid) (x : actor) (e : envelope) : state * list instr :=
-  let dead := match a_state x with Killed => true | Running => false | Killing => negb (e_sys e) end in
+  let is_kill := match e_msg e with MKill _ _ => true | _ => false end in
+  let dead := match a_state x with Killed => true | Running => false | Killing => negb (e_sys e) && negb is_kill end in
   if dead && negb (a_zombie x) then
     match a_parent x with
     | None => (add_ghost s (ODropped (e_msg e)), [IEndHandler])
@@ -654,7 +658,16 @@ Definition dispatch (s : state) (a : aid) (x : actor) (e : envelope) : state * l
         if a_zombie x then (s1, [IDoKill poison; IEndHandler])
         else match a_state x with
              | Running => (set_actor s a (set_state x1 Killing), [IDoKill poison; IEndHandler])
-             | _ => (s1, [IEndHandler])
+             | Killing =>
+                 (* already stopping: an immediate kill is passed on to the remaining children *)
+                 (* already stopping or restarting: the kill cancels a restart in progress *)
+                 let s1 := set_actor s a (set_restarting x1 None) in
+                 if poison then (s1, [IEndHandler])
+                 else (s1, (match a_children x with
+                            | [] => []
+                            | l => [IEnqAny true (map (fun p => RObj (snd p)) l) (RObj a) (MKill (RObj a) false)]
+                            end) ++ [IEndHandler])
+             | Killed => (s1, [IEndHandler])
              end
     | MKilled who => (s1, [IOnKilled who; IEndHandler])
     | MSup c =>
